@@ -51,7 +51,10 @@ var c15Placements = []string{"in-a-submodule", "direct", "grouping-local", "grou
 	// the statement stands on the key leaf of a list, directly or through a uses of another module's grouping
 	"on-a-list-key", "on-a-list-key-from-a-grouping"}
 var c15Stmts = []string{"must", "when", "path"}
-var c15PrefixUses = []string{"none", "own", "imported-by-definer-only", "imported-by-user-only", "same-prefix-different-modules", "undeclared", "same-prefix-in-included-submodule"}
+var c15PrefixUses = []string{"none", "own", "imported-by-definer-only", "imported-by-user-only", "same-prefix-different-modules", "undeclared", "same-prefix-in-included-submodule",
+	// (in-a-submodule only) the prefix the including module gives itself is nothing to the submodule, whose
+	// belongs-to prefix is another one: unknown there, or whatever the submodule's own import binds it to
+	"module-prefix-unbound-in-the-submodule", "module-prefix-bound-by-the-submodule-to-another-module"}
 
 type c15Expr struct {
 	name  string
@@ -129,6 +132,9 @@ func c15Build(placement, stmt, pu string, ex c15Expr, custom string) *c15Case {
 	}
 	if placement == "in-a-submodule" && pu == "same-prefix-in-included-submodule" {
 		return nil // (the writer is a submodule itself)
+	}
+	if placement != "in-a-submodule" && strings.HasPrefix(pu, "module-prefix-") {
+		return nil
 	}
 	switch placement {
 	case "when-on-uses-of-foreign-grouping", "when-on-augment-of-other-module", "when-on-uses-inside-an-augment-with-a-when":
@@ -223,6 +229,13 @@ func c15Build(placement, stmt, pu string, ex c15Expr, custom string) *c15Case {
 	case "undeclared":
 		p = "zz:"
 		c.expectAccept = false
+	case "module-prefix-unbound-in-the-submodule":
+		p = "u:"
+		c.expectAccept = false
+	case "module-prefix-bound-by-the-submodule-to-another-module":
+		imp(writer, "c15-x", "u")
+		p = "u:"
+		c.expectNS = nsX
 	case "same-prefix-in-included-submodule":
 		// the writing module includes a submodule that binds the same prefix to another module:
 		// prefixes are scoped per module / submodule text
@@ -437,7 +450,7 @@ func (p *c15) gen(tier string, seed int64, idx int) *c15Case {
 		valid := v == xp.Accept
 		hasPrefixed := strings.Contains(txt, "§")
 		c.expectAccept = valid
-		if hasPrefixed && (pu == "imported-by-user-only" || pu == "undeclared") {
+		if hasPrefixed && (pu == "imported-by-user-only" || pu == "undeclared" || pu == "module-prefix-unbound-in-the-submodule") {
 			c.expectAccept = false
 		}
 		if hasPrefixed && pl == "grouping-other-module-plus-own-copy" && (pu == "imported-by-definer-only" || pu == "same-prefix-in-included-submodule") {
